@@ -275,9 +275,103 @@ def after_render(check, tier):
     s.done()
 
 
+def tty_query_failures():
+    """(runs in a child interpreter) the position query on a REAL pty whose termios was left in an unusual but legal state (MIN=0 / MIN=3,
+    TIME=2 in the control characters - invisible while the tty is in line mode), with a terminal that answers after a delay and with keys
+    typed ahead: get_cursor_position returns what the terminal reports.  -> [[case, detail], ...]"""
+    import os, termios, threading, time
+    from curtsies.window import CursorAwareWindow
+    out = []
+    for vmin, vtime in ((None, None), (0, 0), (3, 2), (0, 1)):
+        for delay in (0.0, 0.15):
+            for typed in (b"", b"ab"):
+                case = dict(vmin=vmin, vtime=vtime, delay=delay, typed_ahead=typed.decode())
+                m, sl = os.openpty()
+                try:
+                    a = termios.tcgetattr(sl)
+                    if vmin is not None:
+                        a[6][termios.VMIN] = vmin
+                        a[6][termios.VTIME] = vtime
+                        termios.tcsetattr(sl, termios.TCSANOW, a)
+                    stop = []
+
+                    def terminal(m=m, stop=stop, delay=delay, typed=typed):
+                        buf = b""
+                        n = 0
+                        while not stop:
+                            try:
+                                import select
+                                if not select.select([m], [], [], 0.05)[0]:
+                                    continue
+                                buf += os.read(m, 4096)
+                            except OSError:
+                                return
+                            while b"\x1b[6n" in buf:
+                                buf = buf.split(b"\x1b[6n", 1)[1]
+                                n += 1
+                                time.sleep(delay)
+                                os.write(m, (typed if n == 2 else b"") + b"\x1b[%d;%dR" % (4 + n, n))
+                    th = threading.Thread(target=terminal, daemon=True)
+                    th.start()
+                    got = []
+                    ins = os.fdopen(sl, "r", closefd=False, encoding="latin-1")
+                    outs = os.fdopen(sl, "w", closefd=False, encoding="latin-1")
+                    res = {}
+
+                    def body(res=res, got=got, ins=ins, outs=outs):
+                        try:
+                            w = CursorAwareWindow(out_stream=outs, in_stream=ins, extra_bytes_callback=got.append, hide_cursor=False)
+                            with w:
+                                res["second"] = w.get_cursor_position()
+                                res["top"] = w.top_usable_row
+                        except BaseException as e:      # noqa: BLE001
+                            res["exc"] = f"{type(e).__name__}: {e}"
+                    bt = threading.Thread(target=body, daemon=True)
+                    bt.start()
+                    bt.join(6)
+                    stop.append(1)
+                    th.join(1)
+                    if bt.is_alive():
+                        out.append([case, "the query did not return within 6 s although the terminal answered"])
+                        return out          # (a blocked reader thread: nothing more can be run in this process)
+                    if "exc" in res:
+                        out.append([case, f"raised {res['exc']} although the terminal answered both queries"])
+                    elif res.get("second") != (5, 1) or res.get("top") != 4:
+                        out.append([case, f"entering saw row {res.get('top')} (terminal reported row 5 -> 4), the second query returned {res.get('second')} (terminal "
+                                          "reported 6;2 -> (5, 1))"])
+                    elif b"".join(got) != typed:
+                        out.append([case, f"the callback got {b''.join(got)!r}, typed ahead of the report: {typed!r}"])
+                finally:
+                    for fd in (m, sl):
+                        try:
+                            os.close(fd)
+                        except OSError:
+                            pass
+                if len(out) >= 4:
+                    return out
+    return out
+
+
+def tty_query(check, tier):
+    from bounded.common import run_in_environment
+    s = Suite(check, "C18.tty_query", "get_cursor_position (on entering a CursorAwareWindow and again inside) on a real pty left with MIN / TIME control "
+              "characters unset, 0/0, 3/2, 0/1 x a terminal answering at once / after 0.15 s x keys typed ahead of the second report: the reported "
+              "position, the typed bytes handed to the callback", bound="16 scenarios in a child interpreter", exhaustive=False)
+    ran, res = run_in_environment("props.C18", "tty_query_failures", {}, timeout=120)
+    for k in range(16):
+        s.case(("tty", k))
+    if not ran:
+        check.note(f"C18.tty_query: the child did not run: {res}")
+    else:
+        for case, d in res:
+            s.fail("C18.get_cursor_position.tty", case, d)
+    s.done()
+
+
 def run(check, tier, seed):
     for c in CONTRACTS:
         verify(c, tier, check)
     bounded_parse(check, tier)
     bounded_diff(check, tier)
     after_render(check, tier)
+    tty_query(check, tier)
